@@ -86,7 +86,7 @@ def _geometry(rng, nrng, kind):
         r = rng.random()
         if r < 0.04:
             # a hub vertex with 34..40 neighbours (random point sets stop at about 15): "all Delaunay vertex sets" has no degree bound
-            m = rng.randint(34, 40)
+            m = rng.randint(34, 40) if rng.random() < 0.6 else rng.randint(126, 136)      # ... nor does it stop at one signed byte
             ang = np.linspace(0.0, 2.0 * np.pi, m, endpoint=False) + 0.002 * nrng.normal(size=m)
             rad = 0.5 * float(span.min()) * (1.0 + 5e-4 * nrng.normal(size=(m, 1)))      # convex rim: the hub sees every rim vertex
             rim = np.stack([np.sin(ang), np.cos(ang)], axis=1) * rad
